@@ -176,6 +176,20 @@ def cases(tier):
                     s["controls"] = [dict(a, prio=3, name="c0")]
                     s["id"] = {"skel": skel, "pat": pat, "hyd": H, "cv": False, "controls": s["controls"], "init_hair": off}
                     out.append(s)
+        # a leaking tank (the leak is part of the tank's net inflow): single level controls and hysteresis pairs on it
+        if skel in ("twosrc", "pumpfeed"):
+            for cs in sets:
+                hyst2 = len(cs) == 2 and cs[0]["link"] == cs[1]["link"] and cs[0]["value"] != cs[1]["value"] and cs[0]["rel"] != cs[1]["rel"]
+                if not all(c["kind"] == "level" for c in cs) or not (len(cs) == 1 or hyst2) or any(c["thr"] in (LEVELS[0], LEVELS[-1]) for c in cs):
+                    continue
+                if len(cs) == 2 and pat not in DEM_PAIRS:
+                    continue
+                for area in (2e-3, 6e-3):
+                    s = skeleton(skel, pat, H)
+                    node(s, "T")["leak"] = {"area": area, "cd": 0.75, "start": 0, "end": None}
+                    s["controls"] = [dict(c, prio=3, name="c%d" % i) for i, c in enumerate(cs)]
+                    s["id"] = {"skel": skel, "pat": pat, "hyd": H, "cv": False, "controls": s["controls"], "tank_leak": area}
+                    out.append(s)
         for cs in sets:
             for hyd in ((H, 900) if len(cs) == 1 else (H,)):
                 for cv in ((False, True) if skel != "valve" and len(cs) <= 2 and any(c["link"] == "p2" for c in cs) else (False,)):
@@ -310,6 +324,15 @@ def run_case(s):
                         continue
                     if d.get("prio", 3) >= c.get("prio", 3) and (d["kind"] != "level" or possibly_true(d, c["thr"])):
                         blocked = True
+                # an OPEN command for a tank link that the tank's own limit logic was holding closed one step earlier (tank within
+                # the two-second band of a limit): the user status already was OPEN, the control changes nothing, and the opening
+                # seen at step i is the tank's own reopening
+                lk_ = link(s, c["link"])
+                band_ = 1e-3 + 2.0 * max(abs(float(qT[i - 1])), abs(float(qT[i - 2])) if i >= 2 else 0.0) / area
+                if want is None and key == "status" and "T" in (lk_["a"], lk_["b"]) and prev_ == 0.0 and \
+                        (lev[i - 1] <= TMIN + band_ or lev[i - 1] >= TMAX - band_):
+                    counts["exempt_tank_limit"] += 1
+                    continue
                 if now and before_false and acted and not blocked:
                     counts["overshoot_checks"] += 1
                     allow = 2.0 * max(abs(float(qT[i])), abs(float(qT[i - 1]))) / area + 1e-6 + 1e-4
